@@ -28,8 +28,12 @@ PROPS["C20"] = {
     "technique": "runtime monitoring: algebraic-law and round-trip oracles over enumerated + seeded register states, panic capture, debug+release",
     "level_text": ("Executes the real Hll8 code on every single-register and all-equal register state (enumerated) plus "
                    "seeded random states and element multisets, with oracles for the merge/add laws, hex round trip, "
-                   "panic-freedom/finiteness of the estimate and the 40% accuracy envelope; in builds with and without "
-                   "overflow checks. Held on the executions observed, not a proof over 256^256 states."),
+                   "panic-freedom/finiteness of the estimate, clear(), and the 40% accuracy envelope; in builds with and without "
+                   "overflow checks. The envelope is a probabilistic statement and is decided as a rate: hundreds "
+                   "(thorough: 20,000) of random element streams are checked at a ladder of ~110 cardinalities "
+                   "between 100 and 9000 each, and the check fails when more than max(2, streams/1000) streams leave "
+                   "the envelope (unchanged tree: about one stream in 60,000, largest error seen 45% at n=556). "
+                   "Held on the executions observed, not a proof over 256^256 states."),
     "level_note": "trusts the harness PRNG for 'uniformly random'; laws compared through to_hex_string; sampled, except the two enumerated families",
     "legs": lambda tier: both("c20", timeout=1800 if tier == "thorough" else 300) + (shards("c20", 6, 1800) if tier == "thorough" else []),
     "rule": ("register states: all 65,536 single-register states and all 256 all-equal states (enumerated, "
